@@ -13,6 +13,8 @@ functions for converting between IMAP flag names and MH sequence names.
 from collections import defaultdict
 from enum import StrEnum
 
+from .exceptions import No
+
 type Sequences = defaultdict[str, set[int]]
 
 # Maximum size for any single IMAP input (literal strings and accumulated
@@ -117,8 +119,21 @@ def flag_to_seq(flag: str) -> str:
     Returns:
         The corresponding MH sequence name, or the original flag if no
         mapping exists.
+
+    Raises:
+        No: the flag is a keyword that can not be an MH sequence name.
     """
-    return REV_SYSTEM_FLAG_MAP[flag] if flag in REV_SYSTEM_FLAG_MAP else flag
+    if flag in REV_SYSTEM_FLAG_MAP:
+        return REV_SYSTEM_FLAG_MAP[flag]
+
+    # A keyword is stored as the MH sequence of the same name, one
+    # `<name>: <message numbers>` line in the folder's `.mh_sequences`. With
+    # a ':' in the name that line can not be read back, neither by us (every
+    # later command that has to read the sequences fails) nor by any MH tool.
+    #
+    if ":" in flag:
+        raise No(f"'{flag}' can not be used as a keyword on this server")
+    return flag
 
 
 ####################################################################
